@@ -1,9 +1,20 @@
 import ExaModel.Driver.Session
-import ExaModel.Driver.Loop
 open Exa.Driver
 
-def main : IO Unit :=
-  runDriver (Exa.Session.init { passive := false, maxAttempts := 0, hold0 := false, graceful := false } false) (fun st line =>
-    match words line with
+/-- one output line per input line, flushed at once (the harness also talks to this driver
+    interactively while it generates scripts from the model's state). -/
+partial def sessionLoop (h out : IO.FS.Stream) (st : Exa.Session.State) : IO Unit := do
+  let line ← h.getLine
+  if line.isEmpty then return ()
+  let (st', o) :=
+    match words line.trimAscii.toString with
     | "session" :: ws => sessionLine st ws
-    | _ => (st, "bad-op"))
+    | _ => (st, "bad-op")
+  out.putStrLn o
+  out.flush
+  sessionLoop h out st'
+
+def main : IO Unit := do
+  let stdin ← IO.getStdin
+  let stdout ← IO.getStdout
+  sessionLoop stdin stdout (Exa.Session.init { passive := false, maxAttempts := 0, hold0 := false, graceful := false } false)
